@@ -476,4 +476,4 @@ def run_shard(ctx):
                 pass
         return t
 
-    ctx.run_given(mk, ctx.budget(64000, 1200000))
+    ctx.run_given(mk, ctx.budget(64000, 600000))
